@@ -447,7 +447,13 @@ def handle (j : Json) : P Json := do
       let ok := Efp.Theory.chainOk (Efp.Graph.slotReads g) calcs (grp.map (fun s => (g[s.toNat]!).sid)) (c.map (·.1))
       Json.mkObj [("chain", Json.arr (c.map (fun p => Json.arr #[Json.num (p.1 : Int), Json.bool p.2])).toArray),
                   ("ok", Json.bool ok)])
+    let rk ← match fldOpt j "rk" with
+      | some a => (do (← jArr a).toList.mapM jInt)
+      | none => pure []
+    let rkA : Array Nat := (rk.map (·.toNat)).toArray
     pure (Json.mkObj [("chains", Json.arr res.toArray), ("groups", Json.arr gres.toArray),
+                      ("wfOk", Json.bool (Efp.Graph.wfOk g)), ("ancInChiOk", Json.bool (Efp.Graph.ancInChiOk g)),
+                      ("rankOk", Json.bool (rkA.size == g.size && Efp.Graph.rankOk g rkA fuel)),
                       ("inv", Json.bool (Efp.Graph.graphInv g)), ("bidirectional", Json.bool (Efp.Graph.bidirectional g)),
                       ("liveOnly", Json.bool (Efp.Graph.liveOnly g)), ("acyclic", Json.bool (Efp.Graph.acyclic g))])
   | _ => throw s!"unknown cmd {cmd}"
